@@ -68,7 +68,7 @@ func main() {
 		pool.closeAll()
 		lib.Finish(f, res)
 	}
-	res.SetExtra("variant_probed", map[string]bool{"fix_cache": v.FixCache, "fix_snapshot": v.FixSnap, "fix_persisted": v.FixPersist, "init_error_not_remembered": v.InitRetry, "default_initialiser_floor_aware": v.DefaultInitFloorAware})
+	res.SetExtra("variant_probed", map[string]bool{"subscription_tolerates_missing_l1_head": v.SubL1Tolerant, "fix_cache": v.FixCache, "fix_snapshot": v.FixSnap, "fix_persisted": v.FixPersist, "init_error_not_remembered": v.InitRetry, "default_initialiser_floor_aware": v.DefaultInitFloorAware})
 
 	var wg sync.WaitGroup
 	sem := make(chan struct{}, workers)
@@ -107,8 +107,25 @@ func main() {
 			spawn(func() { runDirected(bases, nil, d, r.Fork(1000+id), id, res, pool, v) })
 		}
 	}
-	spawn(func() { runExhaustive(res, pool, v, r.Fork(4242)) })
-	spawnFar(func() { runLRU(far, res, v, r.Fork(4343)) })
+	spawn(func() {
+		t := time.Now()
+		runExhaustive(res, pool, v, r.Fork(4242))
+		logf("exhaustive: %v", time.Since(t))
+	})
+	timed := func(name string, fn func()) func() {
+		return func() {
+			t := time.Now()
+			fn()
+			logf("%s: %v", name, time.Since(t))
+		}
+	}
+	spawn(timed("token strings", func() { runTokenStrings(res, pool, r.Fork(4444)) }))
+	spawn(timed("deduper", func() { runDeduper(res, pool, r.Fork(4445)) }))
+	spawn(timed("empty chain", func() { runEmptyChain(res, pool, v, r.Fork(4446)) }))
+	spawn(timed("v8 reorg", func() { runV8Reorg(res, pool, v, r.Fork(4447)) }))
+	spawn(timed("subscription edges", func() { runSubscriptionEdges(bases, res, pool, v, r.Fork(4448)) }))
+	spawnFar(timed("lru purged", func() { runLRUReset(far, res, v, r.Fork(4449)) }))
+	spawnFar(func() { t := time.Now(); runLRU(far, res, v, r.Fork(4343)); logf("lru: %v", time.Since(t)) })
 	nRandom := f.Scale(24, 400)
 	for i := 0; i < nRandom; i++ {
 		id := uint64(i)
@@ -183,6 +200,13 @@ func checkFloors(res *lib.Result, f lib.Flags) {
 		"fault:prune-interrupted": 1, "restart:pruned-database-without-prune-mode": 4, "contents-checked:persisted-window": 20, "contents-checked:snapshot": 20, "tamper:del": 1, "tamper:mov": 1,
 		"history:lru-small-cache": 1, "lru:iterator-query": 60, "history:random-near-second-boundary": 1,
 		"aggregated-filter:edge-column-checked": 9, "bloom:item-round-trip-checked": 200,
+		// round 5
+		"query:rpc-request-resolved-by-the-model": 3000, "token-string:parse-compared": 7900, "token-string:accepted": 200,
+		"token-string:rejected": 7000, "token-string:round-trip-checked": 144, "rpc-limits:checked": 60, "empty-chain:checked": 8,
+		"deduper:marksent": 500, "subscription-edges:checked": 54, "subscription-edges:replay-checked": 8,
+		"subscription-edges:without-l1-head": 3, "subscription-edges:pre-confirmed-update": 16,
+		"subscription-edges:reorg-clears-the-deduper": 2, "subscription:v8-reorg-checked": 1, "lru-purged:iterator-query": 40,
+		"lru-purged:set-many": 2, "lru-purged:iterator-refusals-checked": 1, "query:filter-with-many-alternatives": 8,
 	}
 	for k, min := range floors {
 		if got := res.Distribution[k]; got < min {
